@@ -668,17 +668,25 @@ def run(tier, seed):
         log("[c12] part 1: %s" % json.dumps(stats))
     return flow.finish(
         res, "model_checking",
-        "Part 1: TLC enumerates defseq tables (see part1_levels), decides StAccepts (prefix-freedom over every permitted "
-        "ordering + arity) and checks the modelled insertion procedure against it; every table is parsed by the real parser "
-        "(accept/reject and trie contents compared); disagreements and a sample are judged by TLC (SeqTab!StJudge).  "
-        "Part 2: TLC explores L1 (Kanata.tla + SeqMode.tla, constants from the parser dump incl. the trie) || P_C12 for every "
-        "physically consistent history over the leader and the sequence keys (<= 2 pending inputs, every gap, typed keys "
-        "bounded) per instance (three input modes, always-on, O-(..) and S-(..) definitions, T in 1..3); every model transition "
-        "is replayed on the real code incl. the SequenceState projection; model-level counterexamples and random histories "
-        "(gaps around T) are recorded from the code and validated by TLC against P_C12.",
+        "Part 1 (parser): TLC enumerates defseq tables (see part1_levels), decides StAccepts (prefix-freedom over every "
+        "permitted ordering + arity) and checks the modelled insertion procedure against it; every table is parsed by the "
+        "real parser (accept/reject and trie contents compared); disagreements and a sample are judged by TLC "
+        "(SeqTab!StJudge).  Part 2 (run time): (a) TLC explores L1 (Kanata.tla + SeqMode.tla, constants from the parser "
+        "dump incl. the trie) || P_C12 for every physically consistent history over the leader and the sequence keys "
+        "(<= 2 pending inputs, every gap, typed keys bounded) per instance (three input modes, always-on, O-(..) and S-(..) "
+        "definitions, T in 1..3); every model transition is replayed on the real code incl. the SequenceState projection; "
+        "model-level counterexamples, continuations of drifting histories and random histories (gaps around T) are "
+        "recorded from the code and validated by TLC against P_C12.  (b) For fixed and seeded accepted tables TLC "
+        "enumerates the typing histories of spec/SeqEnv.tla (every definition in every permitted order, every proper "
+        "beginning followed by a foreign key - also inside S-/O- items -, pauses of T-3..T-1 ticks at every item boundary, "
+        "the leader again at every boundary); they are run on the real code and the traces validated by TLC against P_C12.",
         assumptions=["deterministic stepper (one queued input processed per tick, in arrival order)",
                      "sequence keys are plain keys mapped to themselves; each virtual key outputs one distinct otherwise-unused key",
                      "P_C12 is sharp from a clean point (idle, nothing held) while what was typed is a defined sequence, a beginning "
-                     "of one, or cannot belong to any; backtracking cases the documentation does not pin down are soft (S2 only)",
-                     "sequence-always-on is undocumented: judged with the same rules (the mode is entered by the first key)"],
+                     "of one, or cannot belong to any; situations the documentation does not pin down are soft (S2 only): "
+                     "backtracking matches, a sequence that is also the beginning of a longer one, an O-(..) group begun while "
+                     "earlier keys are still down, keys consumed by a completed sequence still down when the mode is entered "
+                     "again, a virtual key's output arriving while the mode is on again",
+                     "sequence-always-on is undocumented: judged with the same rules (the mode is entered by the first key); not "
+                     "combined with hidden-suppressed, where the virtual key's own output is fed back into the mode and suppressed"],
         extra_cov={"part1": stats, "part1_levels": levels, "exhaustive": True})
